@@ -50,9 +50,14 @@ def scenario(k):
     specs = []
     iid = 1
     for side in 'cs':
-        kinds = ['rr-late', 'stream-mid', 'channel-half', 'rr-big', 'handler-suspended']
+        kinds = ['rr-late', 'stream-mid', 'channel-half', 'rr-big']
         rng.shuffle(kinds)
-        for kind in kinds[:rng.choice([3, 4, 5])]:
+        kinds = kinds[:rng.choice([3, 4])]
+        if k % 3 == 0:
+            # a handler suspended in an await blocks that endpoint's receive loop (recorded known finding); kept out
+            # of the other scenarios so that it cannot mask anything there
+            kinds.append('handler-suspended')
+        for kind in kinds:
             s = {'iid': iid, 'side': side, 'start': ('virtual', rng.choice([0.0, 0.01, 0.05]))}
             if kind == 'rr-late':
                 s.update(model='rr', req=(20, 0), resp={'size': (10, 0), 'outcome': 'never'})
@@ -126,12 +131,13 @@ async def _run(k, fault):
         world.inter[s['iid']] = {}
     tasks = [asyncio.ensure_future(p.driver.run_interaction(p.ep(s['side']), s['side'], s)) for s in specs]
     await asyncio.sleep(T_REF)
-    t_fault_deadline = asyncio.get_event_loop().time()
+    # a fault point that was not reached within the scenario (e.g. an n-th write that never happened) is not a case
+    fault_hit = link.broken is not None or any(e['kind'] == 'explicit_close' for e in world.events)
     await asyncio.sleep(SETTLE)
     settled_at = len(world.events)
     t_settled = asyncio.get_event_loop().time()
     await asyncio.sleep(3.0)      # anything sent in here is sent after the settle began
-    obs = {'tasks': {}, 'delivered': {s: link.delivered(s) for s in 'cs'}, 'broken': link.broken,
+    obs = {'fault_hit': fault_hit, 'tasks': {}, 'delivered': {s: link.delivered(s) for s in 'cs'}, 'broken': link.broken,
            'settled_at': settled_at, 't_settled': t_settled}
     try:
         for side in 'cs':
@@ -366,6 +372,9 @@ def run_case(gen, idx, rng, tier):
         p, specs, obs = vloop.run(_run(k, fault))
         if obs['tasks'] is None:
             return {'inconclusive': 'task attributes not found'}
+        if not obs['fault_hit']:
+            st['fault_points_not_reached'] = st.get('fault_points_not_reached', 0) + 1
+            continue
         w, s, npending = judge(p, specs, obs, fault)
         st['fault_points_run'] += 1
         for kk, v in s.items():
